@@ -60,7 +60,7 @@ def gen_graph(rng, version):
             continue
         seen.add(key)
         if version == 'gfa1':
-            ov = rng.choice(['3M', '4M', '2M1D1M', '*']) if not par else '%dM' % (5 + len(seen))
+            ov = rng.choice(['3M', '4M', '2M1D1M', '*']) if not par else '%dM' % (5 + len(lines))   # distinct from every other
             if ov == '*':
                 star.add(key)
                 star.add(ckey)
@@ -106,13 +106,18 @@ def gen_case(rng, i):
     given = None
     if factor >= 2 and rng.random() < 0.35:
         given = ['%s_c%d' % (rng.choice(['cp', 'Z', seg]), j) for j in range(factor - 1)]
-    return {'kind': 'multiply', 'version': version, 'lines': lines, 'segment': seg, 'factor': factor, 'policy': policy, 'names': given}
+    case = {'kind': 'multiply', 'version': version, 'lines': lines, 'segment': seg, 'factor': factor, 'policy': policy, 'names': given}
+    if rng.random() < 0.3:
+        # the options that record where a copy came from
+        case['opts'] = rng.choice([{'track_origin': True}, {'track_origin': True, 'origin_tag': 'oo'}, {'extended': True},
+                                   {'extended': True, 'origin_tag': 'zz'}])
+    return case
 
 
 def py_of(case):
-    return ("import gfapy\ng=gfapy.Gfa(version=%r)\nfor l in %r: g.add_line(l)\ntry: g.multiply(%r, %d, copy_names=%r, distribute=%r)\n"
+    return ("import gfapy\ng=gfapy.Gfa(version=%r)\nfor l in %r: g.add_line(l)\ntry: g.multiply(%r, %d, copy_names=%r, distribute=%r, **%r)\n"
             "except Exception as e: print(type(e).__name__, e)\nprint(g)"
-            % (case['version'], case['lines'], case['segment'], case['factor'], case['names'], case['policy']))
+            % (case['version'], case['lines'], case['segment'], case['factor'], case['names'], case['policy'], case.get('opts') or {}))
 
 
 def build(case):
@@ -125,14 +130,18 @@ def build(case):
 
 def has_selflink(case):
     """the recorded finding F19: a loop (both ends of the segment), a self-containment, or a hairpin together with link
-    distribution; a hairpin without distribution is multiplied correctly and stays inside the domain"""
+    distribution or with an overlap that is not its own complement; a hairpin with a symmetric overlap and without
+    distribution is multiplied correctly and stays inside the domain"""
     s = case['segment']
     for l in case['lines']:
         f = l.split('\t')
         if f[0] == 'C' and f[1] == s and f[3] == s:
             return True
         if f[0] == 'L' and f[1] == s and f[3] == s:
-            if f[2] == f[4] or case['policy'] not in (None, 'off'):
+            if f[2] == f[4] or case['policy'] not in (None, 'off') or (case.get('opts') or {}).get('extended'):
+                return True
+            if f[5] != gen.complement_cigar(f[5]):
+                # a hairpin whose overlap is not its own complement is cloned twice, like a loop
                 return True
         if f[0] == 'E' and f[2][:-1] == s and f[3][:-1] == s:
             return True
@@ -194,7 +203,10 @@ def judge(case):
     before = [str(x) for x in G.lines]
     names_before = set(G.names)
     s, k, pol = case['segment'], case['factor'], case['policy']
-    r = impl.outcome(lambda: G.multiply(s, k, copy_names=case['names'], distribute=pol))
+    opts = case.get('opts') or {}
+    r = impl.outcome(lambda: G.multiply(s, k, copy_names=case['names'], distribute=pol, **opts))
+    if opts.get('extended') and pol is None:
+        pol = 'auto'
     after = [str(x) for x in G.lines]
     ob = impl.outcome(lambda: GL.impl_obs(G))
     out = []
@@ -251,6 +263,11 @@ def judge(case):
     # k >= 2
     seg_before = [f for f in bf if f[0] == 'S' and f[1] == s][0]
     seg_after = div_tags(seg_before, k)
+    if opts.get('track_origin') or opts.get('extended'):
+        # the original records its own name as the origin unless it carries an origin already; the copies inherit it
+        ot = opts.get('origin_tag', 'or')
+        if not any(t.startswith(ot + ':') for t in seg_after[(3 if v == 'gfa1' else 4):]):
+            seg_after = seg_after + ['%s:Z:%s' % (ot, s)]
     af = [l.split('\t') for l in after]
     segs_after = [f[1] for f in af if f[0] == 'S']
     segs_before = [f[1] for f in bf if f[0] == 'S']
@@ -368,8 +385,15 @@ def run(ctx, deep, model_ok):
         ctx.count(case, True)
         if r[0] != 'ok' or r[1][0]:
             ctx.known(fid, text[fid] + ': ' + (r[1][0][0][0] if r[0] == 'ok' else str(r[1])))
-    for i in range(n):
-        case = gen_case(rng, i)
+    fixed = []
+    base = ['S\tA\t*\tRC:i:9', 'S\tB\t*', 'S\tC\t*\tor:Z:x', 'L\tA\t+\tB\t+\t3M\tKC:i:7', 'L\tA\t-\tC\t+\t*', 'L\tA\t+\tC\t-\t2M']
+    for opts in ({'track_origin': True}, {'extended': True}, {'track_origin': True, 'origin_tag': 'oo'}, {}):
+        for k in (1, 0, -1, 2, 3):
+            for sg in ('A', 'C'):
+                fixed.append(dict({'kind': 'multiply', 'version': 'gfa1', 'lines': base, 'segment': sg, 'factor': k, 'policy': None,
+                                   'names': None}, **({'opts': opts} if opts else {})))
+    for i in range(-len(fixed), n):
+        case = fixed[i + len(fixed)] if i < 0 else gen_case(rng, i)
         r = impl.outcome(lambda: judge(case))
         if r[0] != 'ok':
             ctx.violation('failing-input', 'running the case raised %s' % (r[1],), case, python=py_of(case))
@@ -384,7 +408,7 @@ def run(ctx, deep, model_ok):
         dist[key] = dist.get(key, 0) + 1
         for what, exp, obs in fails[:1]:
             ctx.violation('failing-input', what, case, exp, obs, python=py_of(case))
-        if model_ok and not fails and case['version'] == 'gfa1' and info.get('obs') is not None:
+        if model_ok and not fails and case['version'] == 'gfa1' and info.get('obs') is not None and not case.get('opts'):
             try:
                 terms.append(case_term(case, info))
                 metas.append(case)
